@@ -374,7 +374,8 @@ def align(ctx, facts):
         ctx.ob("ALIGN", "new_with:formula", bad is None, f"aligned for the whole grid ({len(arms)} read_size arm(s))" if bad is None else f"active={bad[0]}, record_size={bad[1]}, configured read_size={bad[2]}: {bad[3]} - the read size is not a divisor of the capacity / not a multiple of the record size, so the tail of the buffer is never flushed (or a record is split)", site_of(b, agg[0]))
     # runtime assertions
     asserts = {"capacity>=active*record": False, "capacity%read_size==0": False}
-    panics = {bb for bb, t in b.calls() if t["t"] is None}
+    dbg = flow.debug_only_blocks(b)
+    panics = {bb for bb, t in b.calls() if t["t"] is None and bb not in dbg}      # a debug_assert! is not there in the shipped build
     for tgt, f in flow.edge_guards(b):
         if not any(pb in b.reachable(tgt, avoid=frozenset(x for x in [agg[0]])) for pb in panics):
             continue
